@@ -90,6 +90,35 @@ class OsProxy:
     def replace(self, *args, **kwargs):
         return self._call('replace', args, kwargs)
 
+    @property
+    def path(self):
+        return _PathProxy(self)
+
+
+class _PathProxy:
+    """os.path whose existence tests go through the proxied stat / lstat (so the boundary sees them, and an error the
+    boundary answers with is swallowed exactly the way os.path.exists swallows it)."""
+
+    def __init__(self, proxy):
+        self._proxy = proxy
+
+    def __getattr__(self, name):
+        return getattr(_real_os.path, name)
+
+    def exists(self, path):
+        try:
+            self._proxy.stat(path)
+        except (OSError, ValueError):
+            return False
+        return True
+
+    def lexists(self, path):
+        try:
+            self._proxy.lstat(path)
+        except (OSError, ValueError):
+            return False
+        return True
+
 
 class GlobProxy:
     """Stand-in for the `glob` global of treadmill.endpoints: same matches,
